@@ -1,4 +1,5 @@
 import PqModel.SearchMulti
+import PqModel.SearchNaN
 
 /-! # C06 — Page search by value never misses a page that contains the value
 
@@ -69,6 +70,23 @@ theorem find_no_miss_writer (nf : Bool) (z : Int) (ix : Index) (v : Int)
   exact writerOrder_ascending z ix hlen (by simpa using hasc) hnn hle
 
 example : writerOrder 0 f1 = 1 ∧ find false (writerOrder 0 f1 == 1) f1 8 = 2 := by decide
+
+/-- The same for the byte-array indexers with a size limit, whose null-page placeholders are truncated with the
+    bounds and therefore differ between the min list (`zn`) and the max list (`zx`): BYTE_ARRAY and
+    FIXED_LEN_BYTE_ARRAY with `ColumnIndexSizeLimit`. Truncated bounds are just wider bounds (`hle`). -/
+theorem find_no_miss_writer_truncating (nf : Bool) (zn zx : Int) (ix : Index) (v : Int)
+    (hlen : ix.maxs.length = ix.mins.length)
+    (hle : ∀ i a b, i < ix.n → minAt ix i = some a → maxAt ix i = some b → a ≤ b) :
+    let r := find nf (writerOrder2 zn zx ix == 1) ix v
+    r ≤ ix.n ∧ (r < ix.n → contains nf ix r v = true) ∧ (∀ p, p < ix.n → contains nf ix p v = true → r ≤ p) := by
+  apply find_no_miss
+  intro hasc hnn
+  exact writerOrder2_ascending zn zx ix hlen (by simpa using hasc) hnn hle
+
+-- FIXED_LEN_BYTE_ARRAY(2), limit 1, pages null, (01xx..01xx): the null page stores 00 / 01, the flag is ASCENDING
+example : writerOrder2 0 1 { mins := [none, some 1], maxs := [none, some 2] } = 1 ∧
+    find false (writerOrder2 0 1 { mins := [none, some 1], maxs := [none, some 2] } == 1)
+      { mins := [none, some 1], maxs := [none, some 2] } 2 = 1 := by decide
 
 /-- the dispatch before the repair (binary search whenever flagged ascending) misses: F1 -/
 theorem findUnguarded_misses : contains false f1 2 8 = true ∧ findUnguarded false true f1 8 = 3 := by decide
@@ -197,5 +215,31 @@ theorem multiIsAscending_blind_across_null_chunk :
         { nulls := [true, true], ix := { mins := [none, none], maxs := [none, none] }, asc := true, desc := false },
         { nulls := [false, false], ix := { mins := [some 1, some 3], maxs := [some 2, some 4] }, asc := true, desc := false } ]
     multiIsAscending 0 cs = true ∧ findMultiGo false 0 cs 3 = 5 ∧ findMultiGo true 0 cs 3 = 5 := by decide
+
+/-! ## FLOAT / DOUBLE indexes with NaN bounds (`SearchNaN.lean`)
+
+`Type.Compare` of the float types answers 0 against NaN, so bounds are `FB` = null | NaN | rank and the mirrors
+`findF`, `binarySearchF`, `linearSearchF`, `writerOrderF` repeat search.go / column_index.go over them. They
+coincide with the rank mirrors when no bound is NaN (`findF_toF`, `ranks_toF`). -/
+
+/-- `Find` never misses on the index the FLOAT/DOUBLE indexers build, NaN pages included: same statement as
+    `find_no_miss_writer`, `containsF` = the bounds test under the float comparison (a NaN bound excludes nothing). -/
+theorem find_no_miss_writer_float (nf : Bool) (z : Int) (ix : FIndex) (v : Int)
+    (hlen : ix.maxs.length = ix.mins.length)
+    (hle : ∀ i a b, i < ix.n → minAtF ix i = .val a → maxAtF ix i = .val b → a ≤ b) :
+    let r := findF nf (writerOrderF z ix == 1) ix v
+    r ≤ ix.n ∧ (r < ix.n → containsF nf ix r v = true) ∧ (∀ p, p < ix.n → containsF nf ix p v = true → r ≤ p) :=
+  findF_no_miss_writer nf z ix v hlen hle (fun jx h1 h2 => find_no_miss_writer nf z jx v h1 h2)
+
+/-- pages (5,7), all-NaN, (1,3): no order is claimed; `Find` returns a page at or before page 2 for the probe 2 -/
+def fNaN : FIndex := { mins := [.val 5, .nan, .val 1], maxs := [.val 7, .nan, .val 3] }
+
+example : writerOrderF 0 fNaN = 0 ∧ findF false (writerOrderF 0 fNaN == 1) fNaN 2 = 1 ∧
+    containsF false fNaN 2 2 = true := by decide
+
+/-- why the order claim must go: the binary search steps over the NaN page and misses page 2 (finding
+    `boundary-order-false-nan-page`, repaired by 2854665) -/
+theorem nan_page_binary_search_misses :
+    containsF false fNaN 2 2 = true ∧ binarySearchF false fNaN 2 = 3 := by decide
 
 end PqModel.Props.C06
